@@ -942,3 +942,53 @@ def r01_10_year_starts_vs_year_lengths(ctx: Ctx) -> RuleResult:
         else:
             rr.fail(ci.label, f"year {bad[0]}: {bad[1]}", ctx.loc(fs))
     return rr
+
+
+@rule("C01")
+def r01_11_trusted_packings(ctx: Ctx) -> RuleResult:
+    """`_YearMonthDayCalendar._ctor(year=, month=, day=, ...)` packs a date without looking at it.  Outside the text layer (whose
+    packings are decided by R08.6) every such site must justify its day: a literal, a dominating `_validate_*` call on the same
+    year / month / day, or a dominating bound `... <= <calculator>.get_days_in_month(year, month)` on the very expression that is
+    packed.  "No month is shorter than 28 days" is not a fact of this library (Coptic month 13 has 5-6 days, Badi months 19)."""
+    from ..exc import facts_at
+    from ..kit import inline_locals
+
+    rr = RuleResult("R01.11", "every trusted year/month/day packing outside the text layer packs a literal day, a validated day, or a day bounded by the month's length", min_instances=4)
+    for f in sorted(set(ctx.M.func_of_node.values()), key=lambda x: x.qual):
+        if isinstance(f.node, ast.Lambda) or "/text/" in f.mod.rel or "/calendars/" in f.mod.rel or "_compatibility" in f.mod.rel or f.mod.rel.endswith("_year_month_day_calendar.py"):
+            continue  # calculators derive the day from a day number (decided by R01.5); the text layer is decided by R08.6
+        for c in own_nodes(f.node):
+            if not (isinstance(c, ast.Call) and unparse(c.func) == "_YearMonthDayCalendar._ctor"):
+                continue
+            kw = {k.arg: k.value for k in c.keywords}
+            if "day" not in kw:
+                continue
+            rr.inst()
+            day = kw["day"]
+            d_txt = unparse(day)
+            if isinstance(day, ast.Constant):
+                rr.ok({"site": f.qual, "day": "literal"})
+                continue
+            # dominating validation call in the same function (earlier statement on the way to the packing)
+            validated = False
+            for n in own_nodes(f.node):
+                if isinstance(n, ast.Call) and isinstance(n.func, ast.Attribute) and "validate" in n.func.attr and getattr(n, "lineno", 0) < c.lineno:
+                    args = {unparse(a) for a in n.args} | {unparse(k.value) for k in n.keywords}
+                    if d_txt in args:
+                        validated = True
+            if validated:
+                rr.ok({"site": f.qual, "day": "validated by a preceding _validate call"})
+                continue
+            bounded = False
+            for a, op, b in facts_at(c):
+                if a == d_txt and op in ("<=", "<") and "get_days_in_month" in b:
+                    bounded = True
+                if op == "<=" and b.endswith(f"<= {d_txt}"):
+                    pass
+            # chained form  1 <= d <= get_days_in_month(...)
+            bounded = bounded or any(b == d_txt and op in (">=", ">") and "get_days_in_month" in a for a, op, b in facts_at(c))
+            if bounded:
+                rr.ok({"site": f.qual, "day": "bounded by the month length"})
+            else:
+                rr.fail(f.qual, f"packs day `{d_txt}` without validation or a days-in-month bound: in calendars with short months (Coptic month 13, Badi) a non-existent date is built", ctx.loc(f, c))
+    return rr
